@@ -44,6 +44,8 @@ pub fn make_pixels<P: Px>(w: u32, h: u32, c: &Content, alpha: Option<&AlphaPat>)
                             P::C::from_f64(c.a + (c.b - c.a) * t)
                         }
                         7 => P::C::from_f64(if rng.chance(1, 20) { c.b } else { c.a }),
+                        // any bit pattern (floats: NaN, infinities, denormals included)
+                        9 => P::C::from_bits(rng.next()),
                         _ => P::C::from_f64(c.a + (c.b - c.a) * rng.unit()),
                     };
                     comps[i] = v;
